@@ -492,11 +492,33 @@ def _sib(r, v):
     return []
 
 
+def twins(x):
+    """values equal (==, same hash) to x but of another type: True ~ 1 ~ 1.0, 0 ~ False ~ 0.0 ~ -0.0"""
+    if isinstance(x, bool):
+        return [int(x), float(x)]
+    if isinstance(x, int) and abs(x) < 2 ** 53:
+        return [float(x)] + ([bool(x)] if x in (0, 1) else [])
+    if isinstance(x, float) and x == x and abs(x) < 2 ** 53 and x == int(x):
+        return [int(x)] + ([bool(x)] if x in (0.0, 1.0) else []) + ([-x] if x == 0.0 else [])
+    return []
+
+
 def perturbations(r, v, depth=0, limit=40):
     """One-step perturbations of v at every depth (list of new values)."""
     out = []
+    keep = []
     if isinstance(v, list):
         out += [v + [r.choice([0, None, "x"])], [r.choice([0, None, "x"])] + v, tuple(v), None]
+        # an element followed / preceded by its cross-type twin (anything keyed on == or hash
+        # confuses them)
+        for i in range(min(len(v), 4)):
+            for tw in twins(v[i])[:2]:
+                keep.append(v[:i + 1] + [tw] + v[i + 1:])
+                keep.append(v[:i] + [tw] + v[i:])
+                if i + 1 < len(v):                      # same length: the twin overwrites a neighbour
+                    keep.append(v[:i + 1] + [tw] + v[i + 2:])
+                if i >= 1:
+                    keep.append(v[:i - 1] + [tw] + v[i:])
         if v:
             i = r.randrange(len(v))
             out += [v[:i] + v[i + 1:], v[:-1], v[1:], v[:i] + [v[i]] + v[i:]]
@@ -524,7 +546,9 @@ def perturbations(r, v, depth=0, limit=40):
         out += _sib(r, v)
     if len(out) > limit:
         out = r.sample(out, limit)
-    return out
+    if len(keep) > 10:
+        keep = r.sample(keep, 10)
+    return keep + out
 
 
 def positions(v, prefix=()):
@@ -590,6 +614,30 @@ FALSY_SCHEMAS = [
     "schema.any(schema.none)", "schema.alias('', schema.int(0))",
     "schema.dict({'a': schema.list.len(..., 0), 'b': schema.str.len(0, 0)})", "schema.list(schema.list.len(0, 0))",
     "schema.list([schema.str.len(..., 0), ...])",
+]
+
+# (schema, value) pairs around values that are == (and hash alike) but of different types, in the
+# places where an implementation could key a cache / set on the value: repeated list elements,
+# dict members, alternatives.  Accepted and rejected ones.
+VTWINS = [
+    ("schema.list(schema.int)", "[1, 1.0]"), ("schema.list(schema.int)", "[1, True]"), ("schema.list(schema.int)", "[1, 1, 1]"),
+    ("schema.list(schema.int)", "[0, False, 0.0]"), ("schema.list(schema.int)", "[1.0, 1]"),
+    ("schema.list(schema.float)", "[1.0, 1]"), ("schema.list(schema.float)", "[0.0, -0.0, 0]"), ("schema.list(schema.float)", "[1, 1.0]"),
+    ("schema.list(schema.bool)", "[True, 1]"), ("schema.list(schema.bool)", "[False, 0.0]"), ("schema.list(schema.bool)", "[1, True]"),
+    ("schema.list(schema.str)", "['a', 'a', b'a']"), ("schema.list(schema.bytes)", "[b'a', 'a', b'a']"),
+    ("schema.list([schema.int, schema.int])", "[1, 1.0]"), ("schema.list([schema.int, ...])", "[1, 1.0]"),
+    ("schema.list([..., schema.int, schema.int])", "[1.0, 1, 1.0]"), ("schema.list([..., schema.float, ...])", "[1, 1, 1.0]"),
+    ("schema.dict({'a': schema.int, 'b': schema.int})", "{'a': 1, 'b': 1.0}"),
+    ("schema.dict({'a': schema.int, 'b': schema.int})", "{'a': True, 'b': 1}"),
+    ("schema.dict({'a': schema.float, ...: ...})", "{'b': 1.0, 'a': 1}"),
+    ("schema.dict({1: schema.int})", "{1.0: 1}"), ("schema.dict({1: schema.int})", "{True: 1}"), ("schema.dict({0: schema.int, 1: schema.str})", "{False: 0, True: 'x'}"),
+    ("schema.list(schema.list(schema.int))", "[[1], [1.0]]"), ("schema.list(schema.list(schema.int))", "[[1], [1]]"),
+    ("schema.list(schema.dict({'a': schema.int}))", "[{'a': 1}, {'a': True}]"),
+    ("schema.list(schema.any(schema.int, schema.str))", "[1, 1.0, '1']"), ("schema.list(schema.any(schema.int, schema.float))", "[1, 1.0, True]"),
+    ("schema.list(schema.int(1))", "[1, 1.0]"), ("schema.list(schema.float(1.0))", "[1.0, 1]"), ("schema.list(schema.int.min(0))", "[0, -0.0]"),
+    ("schema.list(schema.int.min(1))", "[1, 0, 1, 0]"), ("schema.list(schema.str.len(1))", "['a', 'ab', 'a', 'ab']"),
+    ("schema.any(schema.int, schema.float)", "True"), ("schema.any(schema.bool, schema.float)", "1"),
+    ("schema.list(schema.none)", "[None, 0, None, False]"), ("schema.list(schema.float.precision(1))", "[1.0, 1, 1.04]"),
 ]
 
 UNRELATED = [None, True, 0, 1, -1, 1.5, "", "a", b"a", [], [1], {}, {"a": 1}, UUIDS[0], DATETIMES[0],
